@@ -17,6 +17,19 @@ CLAIMED = {
     ),
 }
 
+CLAIMED["C12"] = dict(
+    category="proof",
+    text="Every method of Worklist, IntDisjointSet, DisjointSet and ScopedDict (push/pop/remove/__bool__; __getitem__/union/union_left/"
+         "connected/add/value_count; find/...; get/__getitem__/__contains__/__setitem__) is verified from ANY state satisfying the "
+         "representation invariant against the abstract model (rank-ordered set; partition with ghost representative/distance; "
+         "innermost-definition lookup), with loop invariants and frames, for unbounded sizes; by induction on the history every call "
+         "sequence stays in the model. Plus exhaustive bounded operation sequences on the real classes as a stand-in/replay harness.",
+    note="Assumed: CPython list/dict semantics as modelled; constructors (__init__) and generator methods (roots, __str__) only bounded; "
+         "termination not proved; pyvc + z3 trusted.",
+    design="§4 C12",
+    technique="contract-based deductive verification (representation invariant + abstract view, ghost state), SMT-discharged; bounded model-based stand-in",
+)
+
 NOT_APPLICABLE = {
     "C04": "whole Printer∘Parser composition over every dialect: recursive string programs; no per-function contract within reach of the SMT-backed generator expresses it",
     "C05": "about 80 dialects of hand-written print/parse pairs and a format-string interpreter; same obstacle as C04",
@@ -30,7 +43,7 @@ NOT_APPLICABLE = {
     "C28": "result preservation of an e-graph pipeline: whole-program statement with no per-function postcondition implying it",
 }
 
-NOT_REACHED = ["C01", "C02", "C03", "C06", "C08", "C09", "C10", "C11", "C12", "C13", "C14", "C18", "C19", "C20", "C24", "C25", "C26", "C29"]
+NOT_REACHED = ["C01", "C02", "C03", "C06", "C08", "C09", "C10", "C11", "C13", "C14", "C18", "C19", "C20", "C24", "C25", "C26", "C29"]
 
 
 def main():
